@@ -107,7 +107,7 @@ def witness(prop, clause, tier):
                                     CARGO_NET_OFFLINE='true', VERIF_REPO=REPO))
         if b.returncode != 0:
             return dict(status='witness-build-failed', detail=b.stderr[-1500:])
-        budget = '20000' if tier == 'quick' else '200000'
+        budget = os.environ.get('VERIF_WITNESS_BUDGET') or ('20000' if tier == 'quick' else '200000')
         p = subprocess.run([exe, prop, budget], capture_output=True, text=True, timeout=900)
         out = p.stdout.strip().split('\n')[-1] if p.stdout.strip() else ''
         try:
@@ -161,7 +161,7 @@ def canary_check(unit, seed, tier, repo):
                 fns=chosen, missed=sorted(set(chosen) - set(caught)))
 
 
-ALL_UNITS = ['conn', 'lemmas', 'request', 'client', 'response']
+ALL_UNITS = ['conn', 'lemmas', 'oneshot', 'request', 'client', 'response']
 
 
 def inventory():
@@ -332,10 +332,6 @@ def main():
                 continue   # the loop is gone: its invariant is moot, nothing that remains depends on it
             fn_of = r.g.clauses[cid]['fn'] if cid in r.g.clauses else cid.split('.rewrite.')[0].rsplit('.', 1)[0] if '.rewrite.' not in cid else cid.split('.rewrite.')[0]
             shaky.add((u, fn_of))
-        if getattr(r, 'lost_anchors', None):
-            # a hint whose anchor text disappeared: harmless if everything still verifies
-            if r.failures or r.undecided:
-                undecided.append('%s: anchors lost (%s) and verification incomplete' % (u, ', '.join(r.lost_anchors)))
         for (fn, mode, ms, ok) in r.funcs:
             if mode in ('exec', 'proof'):
                 obligations += 1
@@ -456,7 +452,7 @@ def main():
         # no invariant).  That is not an alarm.  But the replay search can still settle it in one
         # direction: a concrete input on which the REAL code breaks the property is a violation
         # whatever the verifier says.  Only the deterministic searches are used for this.
-        shape = [u for u in undecided if any(k in u for k in ('extraction:', 'tool/compile error', 'round-trip:', 'anchors lost'))]
+        shape = [u for u in undecided if any(k in u for k in ('extraction:', 'tool/compile error', 'round-trip:'))]
         if shape and prop in WITNESS_FALLBACK:
             wit = witness(prop, 'undecided', tier)
             if wit and wit.get('status') == 'found':
@@ -505,9 +501,10 @@ def main():
             units={u: dict(status=results[u].status, wall_s=round(results[u].wall, 2)) for u in pc['units']},
             repo_tree=repo_tree_id(),
             fixed_findings=fixed,
+            hypotheses=pc.get('hypotheses', []),
             exhaustive=False,
         ),
-        assumptions=trusted + ['machine arithmetic is NOT idealised: Verus checks every + - as on the exec types',
+        assumptions=pc.get('hypotheses', []) + trusted + ['machine arithmetic is NOT idealised: Verus checks every + - as on the exec types',
                                'Z3, Verus VC generation, rustc front end' + (', CBMC and Kani MIR translation' if kani_res else '')],
         wall_s=round(time.time() - t0, 2),
         violations=len(real),
